@@ -282,6 +282,7 @@ func c17Run(w *W) {
 	// chains through three aliases (a value ending in a blank, then a chain of two) are in the quick tier too
 	for _, t := range []map[string]string{
 		{"x": "a ", "y": "z b", "z": "c"}, {"x": "a ", "y": "z ", "z": "x"}, {"x": "y ", "y": "z ", "z": "x "}, {"x": "y", "y": "z", "z": "x"},
+		{"x": "y ", "y": "a z", "z": "b"}, {"x": "y ", "y": "a z ", "z": "b"}, {"x": "y ", "y": "a x", "z": "b"}, {"x": "y ", "y": "a z", "z": "b "},
 		{"x": "y ;", "y": "z |", "z": "a"}, {"x": "b=1 ", "y": "z", "z": "a "}, {"x": "if", "y": "z ", "z": "a ;"}, {"x": "> f", "y": "x ", "z": "y "},
 	} {
 		tables = append(tables, t)
